@@ -4,6 +4,7 @@ set -e
 cd "$(dirname "$0")"
 export PYTHONPATH="${VERIF_REPO:-/repo}:$(pwd)" PYTHONHASHSEED=0 PYTHONDONTWRITEBYTECODE=1
 /venv/bin/python -m harness.extract_constants > /dev/null
+/venv/bin/python -c "from harness import common; common.write_coqproject()"
 cd coq
 coq_makefile -f _CoqProject -o Makefile
 timeout 3000 make -j16
